@@ -386,7 +386,7 @@ def corpus_headers(package="hdrs", byte_order=None):
         Type("U8", "uint8"), Type("U16", "uint16"), Type("U32", "uint32"), Type("U64", "uint64"),
         Composite("hdr", [Type("version", "uint8"), Type("extra", "uint16", offset=2), Ref("schemaId", "U32", offset=4),
                           Type("numGroups", "uint8", offset=9), Type("templateId", "uint64", offset=12),
-                          Ref("blockLength", "U16"), Type("numVarDataFields", "uint16"), Type("pad", "char", length=3)]),
+                          Ref("blockLength", "U16"), Ref("numVarDataFields", "U16"), Type("pad", "char", length=3)]),
     ]
     dims = []
     for n in UNSIGNED:
@@ -400,6 +400,8 @@ def corpus_headers(package="hdrs", byte_order=None):
         Composite("d_cnt", [Type("blockLength", "uint16"), Type("numInGroup", "uint16"), Type("numGroups", "uint16"),
                             Type("numVarDataFields", "uint8")]),
         Composite("d_ref", [Ref("blockLength", "U32"), Ref("numInGroup", "U8")]),
+        Composite("d_cntref", [Ref("blockLength", "U16"), Ref("numInGroup", "U8"), Ref("numGroups", "U8"),
+                               Ref("numVarDataFields", "U32")]),
         Composite("d_opt", [Type("blockLength", "uint16", presence="optional"), Type("numInGroup", "uint8", presence="optional")]),
     ]
     vds = []
@@ -435,6 +437,10 @@ def corpus_headers(package="hdrs", byte_order=None):
                                       groups=[Group("c1", nid(), dimension_type="d_cnt"), Group("c2", nid(), dimension_type="d_rev")],
                                       data=[Data("x1", nid(), "v_8_char"), Data("x2", nid(), "v_16_uint8"), Data("x3", nid(), "v_ref")]),
                                 Group("ref", nid(), fields=[Field("a", nid(), "uint16")], dimension_type="d_ref"),
+                                Group("cntref", nid(), fields=[Field("a", nid(), "uint16")], dimension_type="d_cntref",
+                                      groups=[Group("r1", nid(), dimension_type="d_cntref",
+                                                    data=[Data("y1", nid(), "v_8_char")])],
+                                      data=[Data("y2", nid(), "v_16_uint8"), Data("y3", nid(), "v_ref")]),
                                 Group("opt", nid(), fields=[Field("a", nid(), "uint16")], dimension_type="d_opt")],
                         data=[Data("m1", nid(), "v_ref"), Data("m2", nid(), "v_64_int8")]))
     k = 0
@@ -726,6 +732,17 @@ def random_schema(seed, idx):
     bo = rng.choice([None, "littleEndian", "bigEndian"])
     s = Schema(pkg, id=rng.choice([1, 255, 65535]), version=rng.choice([0, 1, 5, 255]), byte_order=bo, types=g.types,
                messages=msgs, description=rng.choice([None, "random schema"]))
+    # some level-header members (mandatory ones and the optional counters) become <ref>s to public types;
+    # drawn from a separate stream so that the shape of the schema does not depend on it
+    r2 = C.rng_for(seed, "schema-hdr-refs", idx)
+    helpers = {}
+    for comp in [x for x in g.types if isinstance(x, Composite) and x.name in dims + vds + ["messageHeader"]]:
+        for i, e in enumerate(comp.elements):
+            if isinstance(e, Type) and e.length is None and e.presence is None and r2.random() < 0.2:
+                hn = "HdrRef_" + e.prim
+                helpers.setdefault(hn, Type(hn, e.prim))
+                comp.elements[i] = Ref(e.name, hn, offset=e.offset)
+    s.types = list(helpers.values()) + s.types
     # header value ranges: ids/versions must fit the header member types
     refmodel.fix_offsets(s)
     refmodel.fit_ids_to_header(s)
